@@ -37,10 +37,37 @@ type Acct struct {
 	Name       string
 	Passphrase string
 	PubKey     phase0.BLSPubKey
-	priv       []byte
+	// Distributed: the remote signer offers the account as a distributed
+	// (threshold) account: PubKey is then the key of the signer's share and
+	// Composite the key of the validator.  The wallet manager's wallets hold
+	// plain accounts only.
+	Distributed bool
+	Composite   phase0.BLSPubKey
+	priv        []byte
 }
 
 func (a *Acct) Path() string { return a.Wallet + "/" + a.Name }
+
+// ValidatorKey is the public key under which the beacon chain knows the
+// validator of this account, as seen through the given manager.
+func (a *Acct) ValidatorKey(mgr string) phase0.BLSPubKey {
+	if mgr == "dirk" && a.Distributed {
+		return a.Composite
+	}
+	return a.PubKey
+}
+
+// validatorKeyOf: the validator's key of an account handed out by a manager
+// (the composite key of a distributed account, else its own key).
+func validatorKeyOf(acc e2wtypes.Account) phase0.BLSPubKey {
+	var k phase0.BLSPubKey
+	if p, ok := acc.(e2wtypes.AccountCompositePublicKeyProvider); ok {
+		copy(k[:], p.CompositePublicKey().Marshal())
+	} else {
+		copy(k[:], acc.PublicKey().Marshal())
+	}
+	return k
+}
 
 var (
 	universeOnce sync.Once
@@ -76,6 +103,19 @@ func accounts() []*Acct {
 				}
 				a := &Acct{ID: len(universe), Wallet: w, Name: n, Passphrase: passphraseOf(w, n), priv: h[:]}
 				copy(a.PubKey[:], sk.PublicKey().Marshal())
+				if n == "ab" || n == "Val 10" || (w == "wx1" && n == "a") {
+					hc := sha256.Sum256([]byte("verif-c13-composite|" + w + "|" + n))
+					hc[0] = 0
+					if hc[31] == 0 {
+						hc[31] = 1
+					}
+					csk, err := e2types.BLSPrivateKeyFromBytes(hc[:])
+					if err != nil {
+						panic(err)
+					}
+					a.Distributed = true
+					copy(a.Composite[:], csk.PublicKey().Marshal())
+				}
 				universe = append(universe, a)
 				byPubKey[a.PubKey] = a
 			}
